@@ -706,4 +706,13 @@ theorem T_C09_shear_face_straddling :
     rw [hm]
     exact T_C09_shear_plane _ _ _ _ _ _ _ (by simp [V3.dot])
 
+/-- the least number of rows of a point array that `wfV` demands is the one `Array.__init__` enforces (its guard
+    `len(points) <= 1`, read with `ast`), and with it an array is never empty — what the centre theorems need -/
+theorem T_C09_array_rows_source :
+    arrayMinRows = Gen.c09ArrayMinRows ∧ (∀ vs : List V3, wfV (.arr vs) = true → vs ≠ []) := by
+  refine ⟨rfl, ?_⟩
+  intro vs h h0
+  rw [h0] at h
+  simp [wfV, arrayMinRows] at h
+
 end CBV.C09
